@@ -120,6 +120,15 @@ func devwUser(rng *Rng, arch byte, keys []devwKey) wMsg {
 		}
 		m.devs = append(m.devs, wField{num: k.num, bt: k.idx, tag: int(tag), data: data})
 	}
+	if m.num == 206 && rng.Intn(2) == 0 {
+		// a field_description message that describes a developer field it carries itself, under a key nothing else describes
+		// (developer data index 3): the decoder records the description BEFORE it decodes the developer fields of the message
+		k := devwKey{3, rng.Intn(256)}
+		m.devs[0].num, m.devs[0].bt = k.num, k.idx
+		dm := devwDesc(rng, arch, k, rng.Intn(3) != 0)
+		m.fields = append(dm.fields, m.fields...)
+		count("dev:self-described")
+	}
 	if len(m.fields) == 0 && rng.Intn(2) == 0 {
 		m.fields = append(m.fields, devwU8(3, byte(rng.Intn(255))))
 	}
